@@ -6,7 +6,6 @@ import checks
 
 ALL = ["C%02d" % i for i in range(1, 21)]
 NA = {
-    "C15": "whole-pipeline PALS heuristic on kb-scale inputs: data-dependent loop bounds, floating-point acceptance test, 100k-element buffers, and a minimum hit length that makes every instance the symbolic engine can unroll vacuous (DESIGN.md §4 C15)",
 }
 NOT_YET = "check not built yet in this session (solver-based harness planned in DESIGN.md §4); not claimed"
 
